@@ -85,11 +85,18 @@ def layouts(interp, first, maxlen, seed):
             yield v, L
 
 
+def sweep_chars(interp):
+    cs = [chr(c) for c in range(0x21, 0x7f)] + list("éüЖ字ß")
+    return [c for c in cs if not (interp == "comma" and c == ",")]
+
+
 def units(tier, seed):
     out = []
     for interp in ("ws", "comma"):
         for first in PIECES[interp](seed):
             out.append({"interp": interp, "first": first})
+        cs = sweep_chars(interp)
+        out += [{"interp": interp, "sweep": cs[i:i + 25]} for i in range(0, len(cs), 25)]
     return out
 
 
@@ -222,9 +229,45 @@ def run_case(case):
     return [], vals
 
 
+def run_sweep(part, interp, chars):
+    """one unusual character at a time inside the words of a list (read, no-op, and every depth-1 edit)"""
+    sep = " " if interp == "ws" else ", "
+    for c in chars:
+        words = ["x" + c + "y", c, c + c]
+        layouts = [" " + sep.join(words), words[0] + sep + "m\n " + words[1], " m" + sep + "\n#k\n " + words[2] + sep.rstrip()]
+        for v in layouts:
+            if not valid_value(v):
+                continue
+            base = {"interp": interp, "value": v}
+            bad, vals = run_case(dict(base, sessions=[]))
+            part.states += 1
+            part.transitions += 1
+            part.traces += 1
+            part.evaluations += 1
+            for sig, exp, obs in bad:
+                part.violation(sig, dict(base, sessions=[]), exp, obs, rank=1)
+            if bad:
+                continue
+            part.nontrivial += 1
+            for e in list(edits_for(vals, interp)) + [("append", "z" + c), ("replace", vals[0], c + "z")]:
+                for observe in (False, True):
+                    case = dict(base, sessions=[[e]], observe=observe)
+                    bad, _v = run_case(case)
+                    part.transitions += 1
+                    part.traces += 1
+                    part.evaluations += 1
+                    for sig, exp, obs in bad:
+                        part.violation(sig, case, exp, obs, rank=2)
+            part.outcomes["sweep/" + interp] += 1
+    part.sample({"interp": interp, "value": " x" + chars[0] + "y", "sessions": []})
+    return part
+
+
 def run_unit(u, tier, seed):
     part = core.Part()
     interp = u["interp"]
+    if "sweep" in u:
+        return run_sweep(part, interp, u["sweep"])
     Lread, L1, L2, L3 = (4, 4, 3, 0) if tier == "quick" else (5, 5, 4, 2)
     for v, L in layouts(interp, u["first"], max(Lread, L1), seed):
         base = {"interp": interp, "value": v}
